@@ -353,10 +353,45 @@ func c14r3(rc *core.RC) {
 			continue
 		}
 		rc.Touch(fn)
-		opt := core.NormOpts{DropStmt: isLockStmt}
-		na := core.NormalStmts(rc.P.Fset, rc.P.Info(a), a.Body.List, opt)
-		nb := core.NormalStmts(q.Fset, q.Info(b), b.Body.List, opt)
-		// the race variant restructures only by adding lock statements; early-return error paths that unlock are dropped too
+		// the variants may place lock statements (and the locals they need) differently; what must agree is
+		// the sequence of effects: module calls, cache slot reads and writes, and address-bound comparisons
+		effects := func(prog *core.Program, fd *ast.FuncDecl) []string {
+			info := prog.Info(fd)
+			cacheObj := prog.Pkg(cs.pkg).Types.Scope().Lookup(cs.cache)
+			lhs := map[ast.Expr]bool{}
+			ast.Inspect(fd.Body, func(n ast.Node) bool {
+				if as, ok := n.(*ast.AssignStmt); ok {
+					for _, l := range as.Lhs {
+						lhs[core.Unparen(l)] = true
+					}
+				}
+				return true
+			})
+			var out []string
+			ast.Inspect(fd.Body, func(n ast.Node) bool {
+				switch x := n.(type) {
+				case *ast.CallExpr:
+					if f := core.Callee(info, x); f != nil && f.Pkg() != nil && strings.HasPrefix(f.Pkg().Path(), core.ModPath) {
+						out = append(out, "call "+f.Name())
+					}
+				case *ast.IndexExpr:
+					if core.ObjOf(info, x.X) == cacheObj {
+						if lhs[x] {
+							out = append(out, "slot-write")
+						} else {
+							out = append(out, "slot-read")
+						}
+					}
+				case *ast.BinaryExpr:
+					if f := fieldNameOf(info, x.Y); (f == "MaxTypeAddr" || f == "BaseTypeAddr") && x.Op != token.SUB {
+						out = append(out, "cmp "+x.Op.String()+" "+f)
+					}
+				}
+				return true
+			})
+			return out
+		}
+		na, nb := effects(rc.P, a), effects(q, b)
 		if d := core.FirstDiff(na, nb); d >= 0 {
 			x, y := "<end>", "<end>"
 			if d < len(na) {
@@ -365,9 +400,9 @@ func c14r3(rc *core.RC) {
 			if d < len(nb) {
 				y = nb[d]
 			}
-			rc.Bad(fn+"/race-norace-siblings", a.Pos(), "the %s and %s variants differ beyond lock statements at statement %d: %q vs %q", rc.P.Config, other, d, core.Clip(x, 120), core.Clip(y, 120))
+			rc.Bad(fn+"/race-norace-siblings", a.Pos(), "the %s and %s variants perform different effects (module calls, cache slot accesses, bound comparisons) at position %d: %q vs %q", rc.P.Config, other, d, x, y)
 		} else {
-			rc.OK(fn+"/race-norace-siblings", a.Pos(), "%d statements equal modulo Lock/Unlock", len(na))
+			rc.OK(fn+"/race-norace-siblings", a.Pos(), "same sequence of %d effects in both build configurations", len(na))
 		}
 	}
 	// encoder and decoder agree on the guard shape: both bounds in one condition
